@@ -253,6 +253,30 @@ class C17(PropertyCheck):
         "the theorems assume the reported radius is sqrt(y^2+x^2) in the profile frame)",
         "IEEE rounding of the projection / relocation arithmetic (compared at 1e-9)",
     ]
+    modelled_functions = [
+        "autoarray/structures/decorators/abstract.py:AbstractMaker.evaluate_func",
+        "autoarray/structures/decorators/abstract.py:AbstractMaker.result",
+        "autoarray/structures/decorators/to_array.py:ArrayMaker.via_grid_2d",
+        "autoarray/structures/decorators/to_array.py:ArrayMaker.via_grid_2d_irr",
+        "autoarray/structures/decorators/to_array.py:ArrayMaker.via_grid_1d",
+        "autoarray/structures/decorators/to_array.py:to_array",
+        "autoarray/structures/decorators/to_grid.py:GridMaker.via_grid_2d",
+        "autoarray/structures/decorators/to_grid.py:GridMaker.via_grid_2d_irr",
+        "autoarray/structures/decorators/to_grid.py:GridMaker.via_grid_1d",
+        "autoarray/structures/decorators/to_grid.py:to_grid",
+        "autoarray/structures/decorators/to_vector_yx.py:VectorYXMaker.via_grid_2d",
+        "autoarray/structures/decorators/to_vector_yx.py:VectorYXMaker.via_grid_2d_irr",
+        "autoarray/structures/decorators/to_vector_yx.py:to_vector_yx",
+        "autoarray/structures/decorators/project_grid.py:project_grid",
+        "autoarray/structures/decorators/relocate_radial.py:relocate_to_radial_minimum",
+        "autoarray/structures/decorators/transform.py:transform",
+        "autoarray/structures/grids/uniform_1d.py:Grid1D.grid_2d_radial_projected_from",
+        "autoarray/structures/grids/uniform_2d.py:Grid2D.grid_2d_radial_projected_from",
+        "autoarray/structures/grids/grid_2d_util.py:grid_scaled_2d_slim_radial_projected_from",
+        "autoarray/geometry/geometry_util.py:transform_grid_2d_to_reference_frame",
+        "autoarray/geometry/geometry_util.py:transform_grid_2d_from_reference_frame",
+        "autoarray/mask/derive/mask_1d.py:DeriveMask1D.to_mask_2d",
+    ]
     assumptions = [
         "the user function returns one value (or (y,x) pair) per coordinate it receives (otherwise the "
         "container constructors raise, which the model reports as constructor_raised)",
